@@ -48,7 +48,9 @@ def gen(rng, tier):
         ns = rng.choice(nss)
         k = rng.random()
         cnt += 1
-        if k < 0.22:
+        if k < 0.03:
+            ops.append(['save', p, ns, {}])       # "logout": start afresh
+        elif k < 0.22:
             ops.append(['save', p, ns, {'v': cnt, 'x': gen_value(rng, 1)}])
         elif k < 0.45:
             ops.append(['get', p, ns])
